@@ -320,6 +320,22 @@ pub fn cmd_sweep_c07(args: &[String]) {
             let (im, s) = hsalsa(&key, &input, c); compare(&mut rep, "hsalsa20", im, &[("libsodium", s.as_ref())], json!({"i": i, "const": c.is_some()}));
             let (im, s) = hchacha(&key, &input, c); compare(&mut rep, "hchacha20", im, &[("libsodium", s.as_ref())], json!({"i": i, "const": c.is_some()}));
         }
+        // word-structured operands: every arrangement of {zero, all-0xff, random, 0xff..fe} 8-byte words (1..=5 words)
+        // followed by a tail of 0..=7 bytes of 0xff or random - carries that die and start again inside the buffer
+        for nw in 1..=5usize {
+            for combo in 0..4usize.pow(nw as u32) {
+                for tail in 0..8usize {
+                    let mut b: Vec<u8> = vec![];
+                    let mut c = combo;
+                    for _ in 0..nw {
+                        match c % 4 { 0 => b.extend_from_slice(&[0u8; 8]), 1 => b.extend_from_slice(&[0xffu8; 8]), 2 => b.extend(rng.bytes(8)), _ => { b.extend_from_slice(&[0xffu8; 7]); b.push(0xfe); } }
+                        c /= 4;
+                    }
+                    if (combo + tail) % 2 == 0 { b.extend(vec![0xffu8; tail]); } else { b.extend(rng.bytes(tail)); }
+                    let (im, s) = increment(&b); compare(&mut rep, "increment", im, &[("libsodium", s.as_ref())], json!({"words": nw, "combo": combo, "tail": tail}));
+                }
+            }
+        }
         for len in 0..=40usize {
             for pat in 0..6 {
                 let mut b = match pat { 0 => vec![0xffu8; len], 1 => vec![0u8; len], 2 => { let mut v = vec![0xffu8; len]; if len > 0 { v[len - 1] = 0x7f; } v } 3 => { let mut v = vec![0u8; len]; if len > 0 { v[0] = 0xff; } v } _ => rng.bytes(len) };
@@ -474,6 +490,22 @@ pub fn cmd_sweep_c05(args: &[String]) {
         rep.evaluations += 3;
         if k1 != ks { rep.fail("crypto_box_beforenm differs from libsodium", json!({"i": i})); }
         if pre.as_slice() != ks || pre2.as_slice() != ks { rep.fail("PrecalcSecretKey / KeyPair::precalculate differs from libsodium", json!({"i": i})); }
+        let pre3 = dryoc::precalc::PrecalcSecretKey::precalculate(&pb, &a);
+        rep.evaluations += 1;
+        if pre3.as_slice() != ks { rep.fail("PrecalcSecretKey::precalculate over [u8;32] differs from libsodium", json!({"i": i})); }
+        #[cfg(feature = "nightly")]
+        if i < 60 {
+            use dryoc::protected::{HeapByteArray, NewLockedFromSlice};
+            let lk = |x: &[u8; 32]| HeapByteArray::<32>::from_slice_into_locked(x).unwrap();
+            let ro = |x: &[u8; 32]| HeapByteArray::<32>::from_slice_into_readonly_locked(x).unwrap();
+            rep.evaluations += 4;
+            match dryoc::precalc::PrecalcSecretKey::precalculate_locked(&StackByteArray::from(&pb), &lk(&a)) { Ok(k) => if k.as_slice() != ks { rep.fail("PrecalcSecretKey::precalculate_locked differs from libsodium", json!({"i": i})); }, Err(e) => rep.fail("PrecalcSecretKey::precalculate_locked failed", json!(format!("{:?}", e))) }
+            match dryoc::precalc::PrecalcSecretKey::precalculate_readonly_locked(&StackByteArray::from(&pb), &lk(&a)) { Ok(k) => if k.as_slice() != ks { rep.fail("PrecalcSecretKey::precalculate_readonly_locked differs from libsodium", json!({"i": i})); }, Err(e) => rep.fail("PrecalcSecretKey::precalculate_readonly_locked failed", json!(format!("{:?}", e))) }
+            let lkp: dryoc::dryocbox::protected::LockedKeyPair = dryoc::keypair::KeyPair { public_key: lk(&pa), secret_key: lk(&a) };
+            match lkp.precalculate_locked(&lk(&pb)) { Ok(k) => if k.as_slice() != ks { rep.fail("KeyPair<Locked>::precalculate_locked differs from libsodium", json!({"i": i})); }, Err(e) => rep.fail("KeyPair<Locked>::precalculate_locked failed", json!(format!("{:?}", e))) }
+            let rkp: dryoc::dryocbox::protected::LockedROKeyPair = dryoc::keypair::KeyPair { public_key: ro(&pa), secret_key: ro(&a) };
+            match rkp.precalculate_readonly_locked(&ro(&pb)) { Ok(k) => if k.as_slice() != ks { rep.fail("KeyPair<LockedRO>::precalculate_readonly_locked differs from libsodium", json!({"i": i})); }, Err(e) => rep.fail("KeyPair<LockedRO>::precalculate_readonly_locked failed", json!(format!("{:?}", e))) }
+        }
     }
     // beforenm with adversarial peer keys: equal to libsodium wherever libsodium produces a key
     for (pn, p) in specials.iter() {
